@@ -3,10 +3,12 @@
 set -e
 cd "$(dirname "$0")"
 export GOFLAGS=-mod=mod GOPROXY=off GOSUMDB=off GOTOOLCHAIN=local
+REPO=${VERIF_REPO:-/repo}
 mkdir -p .build .work/out evidence replays
-cp /repo/go.sum harness/go.sum
-(cd harness && go build -tags verif -o ../.build/harness .)
-.build/harness facts -repo /repo -out lean/TplModel/Generated/Facts.lean
+sed "s#replace code.gopub.tech/tpl => .*#replace code.gopub.tech/tpl => $REPO#" harness/go.mod > .build/harness.mod
+cp $REPO/go.sum .build/harness.sum
+(cd harness && go build -modfile=../.build/harness.mod -tags verif -o ../.build/harness .)
+.build/harness facts -repo $REPO -out lean/TplModel/Generated/Facts.lean
 (cd lean && lake build TplModel tpldriver 2>&1 | grep -v "warning\|^Note\|^Hint\|\[apply\]\|^$\|deprecated\|unused\|^  " | tail -15)
 test -x lean/.lake/build/bin/tpldriver
 echo setup-ok
